@@ -51,6 +51,10 @@ C14_TN(long, "int64_t");
 C14_TN(unsigned long, "uint64_t");
 C14_TN(long long, "long long");
 C14_TN(unsigned long long, "unsigned long long");
+C14_TN(wchar_t, "wchar_t");
+C14_TN(char8_t, "char8_t");
+C14_TN(char16_t, "char16_t");
+C14_TN(char32_t, "char32_t");
 #undef C14_TN
 
 template <class T>
@@ -741,13 +745,20 @@ inline Plan const& plan()
     }();
     return p;
 }
-inline vf::Spec make_spec(vf::Tier t, std::uint32_t rounds_quick, std::uint32_t rounds_thorough)
+// the tier is known before the plan is built (units may register more work in the thorough tier)
+inline vf::Tier& tier_hint()
 {
+    static vf::Tier t = vf::Tier::quick;
+    return t;
+}
+inline vf::Spec make_spec(vf::Tier t, std::uint32_t rounds_quick, std::uint32_t rounds_thorough, std::uint32_t batch = 8)
+{
+    tier_hint()   = t;
     Plan const& p = plan();
     vf::Spec s;
     s.n_enum     = p.prefix.back();
     s.n_random   = std::uint64_t(p.rnd.size()) * (t == vf::Tier::thorough ? rounds_thorough : rounds_quick);
-    s.batch      = 8;
+    s.batch      = batch;
     s.timeout_s  = 60;
     s.exhaustive = true;
     return s;
